@@ -63,7 +63,10 @@ pub fn stop_case(rng: &mut Rng, out: &mut Out, invalid_utf8: bool) {
     } else {
         None
     };
-    let stop_tokens: Vec<u32> = if rng.chance(1, 2) { vec![eos] } else if rng.chance(1, 2) { vec![eos, rng.below(ws.len()) as u32] } else { vec![] };
+    // EOS is always a stop token and always closes the stream: how much text the controller holds back
+    // while a match is still possible is its own business (it merges partial matches with equal
+    // continuations), the property speaks about the text returned over the whole run
+    let stop_tokens: Vec<u32> = if rng.chance(1, 2) { vec![eos] } else { vec![eos, rng.below(ws.len()) as u32] };
     // text containing stop candidates split across tokens
     let mut text = String::new();
     for _ in 0..rng.range(2, 12) {
@@ -89,6 +92,7 @@ pub fn stop_case(rng: &mut Rng, out: &mut Out, invalid_utf8: bool) {
             toks.insert(pos, t);
         }
     }
+    toks.push(eos);
     let rx_string = stop_rx.as_ref().map(|r| {
         let mut s = String::new();
         r.to_regex(&mut s);
